@@ -170,8 +170,9 @@ Qed.
 
 (* --- the frame relation ------------------------------------------------------------------------------------------------------------ *)
 (* a node of the new forest that is either new (id from the new range) or holds what some node of the old forest held *)
+Definition allfresh (st : state) (m : node) : Prop := Forall (fun i => (next_id st <= i)%N) (ids m).
 Definition good (st : state) (m : node) : Prop :=
-  (next_id st <= nid0 m)%N \/ exists n, In n (live_nodes st) /\ cont n = cont m.
+  allfresh st m \/ exists n, In n (live_nodes st) /\ cont n = cont m.
 Definition FR (st st' : state) (ids : list N) : Prop :=
   (next_id st <= next_id st')%N /\ forall n', In n' (live_nodes st') -> In (nid0 n') ids \/ good st n'.
 Lemma good_live : forall st n, In n (live_nodes st) -> good st n.
@@ -183,10 +184,10 @@ Proof. intros st st' a b [L F] I. split; auto. intros n' H. destruct (F _ H); au
 Lemma good_trans : forall a b n' ids, FR a b ids -> good b n' -> In (nid0 n') ids \/ good a n'.
 Proof.
   intros a b n' ids [L F] [G|(n & I & C)].
-  - right. left. lia.
+  - right. left. unfold allfresh in *. eapply Forall_impl; [|exact G]. simpl. intros. lia.
   - destruct (F _ I) as [X|[X|(m & I2 & C2)]].
     + left. rewrite <- (cont_nid _ _ C). auto.
-    + right. left. rewrite <- (cont_nid _ _ C). auto.
+    + right. left. unfold allfresh in *. rewrite <- (cont_ids _ _ C). auto.
     + right. right. exists m. split; auto. congruence.
 Qed.
 Lemma FR_trans : forall a b c i1 i2, FR a b i1 -> FR b c i2 -> FR a c (i1 ++ i2).
@@ -204,27 +205,32 @@ Proof.
   - rewrite IH. destruct (N.eqb i j) eqn:F; auto. apply N.eqb_eq in F. subst. rewrite E. auto.
   - rewrite IH. destruct (N.eqb i j) eqn:F; auto. apply N.eqb_eq in F. subst. rewrite E. auto.
 Qed.
-Lemma ok_reset : forall A (val : node -> A) st ids t n',
+Lemma ok_reset : forall A (val : node -> A) st ids t n', is_node n' = true ->
   (forall n m, cont n = cont m -> val n = val m) ->
   (forall n, In n (live_nodes st) -> ok_tbl val t n) -> dom_below (next_id st) t ->
   (In (nid0 n') ids \/ good st n') -> ok_tbl val (drop ids t) n'.
 Proof.
-  intros A val st ids t n' VC V D H v L. rewrite lookup_drop in L.
+  intros A val st ids t n' NN VC V D H v L. rewrite lookup_drop in L.
   destruct (existsb (N.eqb (nid0 n')) ids) eqn:E; [discriminate|].
   destruct H as [H|[H|(n & I & C)]].
   - apply existsb_eqb_in in H. congruence.
-  - apply D in L. lia.
+  - apply D in L. destruct n'; [discriminate|]. unfold allfresh in H. simpl in *. inv H. unfold nid0 in L. simpl in L. lia.
   - rewrite <- (VC _ _ C). apply (V n I). rewrite (cont_nid _ _ C). auto.
 Qed.
 Lemma dom_drop : forall A b b' ids (t : list (N * A)), dom_below b t -> (b <= b')%N -> dom_below b' (drop ids t).
 Proof.
   intros A b b' ids t D L i v H. rewrite lookup_drop in H. destruct (existsb _ ids); [discriminate|]. apply D in H. lia.
 Qed.
+Lemma live_is_node : forall st n, In n (live_nodes st) -> is_node n = true.
+Proof.
+  intros. unfold live_nodes in H. apply in_flat_map in H. destruct H as [sl [I1 I2]]. destruct sl; [|contradiction]. eapply subnodes_node; eauto.
+Qed.
 (* resetting the memo of every node that is not [good] keeps the tables valid *)
 Theorem reset_sound : forall st st' ids c, Fresh (mkX st c) -> FR st st' ids -> Fresh (mkX st' (reset ids c)).
 Proof.
   intros st st' ids c [V [D1 [D2 D3]]] [L F]. simpl in *. split; [|repeat split; eapply dom_drop; eauto].
-  intros n' I. specialize (F _ I). unfold valid, reset. simpl. repeat split.
+  intros n' I. specialize (F _ I). assert (NN : is_node n' = true) by (eapply live_is_node; eauto).
+  unfold valid, reset. simpl. repeat split.
   - eapply ok_reset; eauto. apply val_pure_cont. intros; apply V; auto.
   - eapply ok_reset; eauto. apply val_gen_cont. intros; apply V; auto.
   - eapply ok_reset; eauto. apply val_gen_cont. intros; apply V; auto.
@@ -277,7 +283,7 @@ Lemma good_detach : forall st old, (forall m, In m (subnodes old) -> good st m) 
 Proof.
   intros. destruct (subnodes_ceq old (detach old)) with (m' := m) as (m0 & I & C); auto. symmetry. apply cont_detach.
   destruct (H _ I) as [G|(n & In' & C')].
-  - left. rewrite <- (cont_nid _ _ C). auto.
+  - left. unfold allfresh in *. rewrite <- (cont_ids _ _ C). auto.
   - right. exists n. split; auto. congruence.
 Qed.
 
@@ -334,9 +340,16 @@ Proof.
 Qed.
 
 (* --- the value that gets stored -------------------------------------------------------------------------------------------------------- *)
-Lemma subnodes_fresh : forall lo hi n m, in_range lo hi (ids n) -> In m (subnodes n) -> (lo <= nid0 m)%N.
+Lemma subnodes_ids_incl : forall n m, In m (subnodes n) -> incl (ids m) (ids n).
 Proof.
-  intros. apply in_subnodes_ids in H0. unfold in_range in H. rewrite Forall_forall in H. apply H in H0. lia.
+  induction n using node_ind'; simpl; intros; try contradiction. destruct H0 as [E|I]. subst. apply incl_refl.
+  apply in_flat_map in I. destruct I as [kv [I1 I2]]. rewrite Forall_forall in H. intros x Ix. simpl. right.
+  apply in_flat_map. exists kv. split; auto. eapply (H _ I1); eauto.
+Qed.
+Lemma subnodes_fresh : forall st hi n m, in_range (next_id st) hi (ids n) -> In m (subnodes n) -> allfresh st m.
+Proof.
+  intros. unfold allfresh. apply Forall_forall. intros i I. apply (subnodes_ids_incl _ _ H0) in I.
+  unfold in_range in H. rewrite Forall_forall in H. apply H in I. lia.
 Qed.
 Lemma formalize_good : forall q sc st r ck cid cfl tpath ins rv nw st1,
   wfs st -> rv_ok rv -> formalize q sc st r ck cid cfl tpath ins rv = (nw, st1) ->
@@ -374,7 +387,7 @@ Lemma SH_refl : forall st cid, SH st st cid.
 Proof. split. lia. intros. right. apply good_live. auto. Qed.
 Lemma good_ceq : forall st m0 m, cont m0 = cont m -> good st m0 -> good st m.
 Proof.
-  intros st m0 m C [G|(n & I & C')]. left. rewrite <- (cont_nid _ _ C). auto. right. exists n. split; auto. congruence.
+  intros st m0 m C [G|(n & I & C')]. left. unfold allfresh in *. rewrite <- (cont_ids _ _ C). auto. right. exists n. split; auto. congruence.
 Qed.
 Lemma child_good_ceq : forall st k c k' c', cont c = cont c' -> child_good st (k, c) -> child_good st (k', c').
 Proof.
